@@ -37,6 +37,8 @@ func headerPath(k *Kind) string {
 }
 
 func runC01(w *World, r *Report) {
+	r.Rule("observers", "methods that formatting calls implicitly (String, Error, …) leave the value unchanged", 1)
+	observerRule(w, r, "observers", "openflow13", "common")
 	r.Rule("declen", "stored length fields the size rules rely on are kept equal to the element size by every constructor and builder", 13)
 	declenRule(w, r)
 	codes, err := loadCodes()
